@@ -244,38 +244,75 @@ func walKeys(wal []byte, ps uint32, off, size int64, commit uint32) []uint32 {
 }
 
 type sparseScenario struct {
-	ps    uint32
-	delta int    // initial database size = lockPgno + delta pages
-	name  string // where the lock page lies relative to the first committed range
+	ps      uint32
+	delta   int    // initial (first synced) database size = lockPgno + delta pages
+	name    string // where the lock page lies relative to the first committed range
+	growths []int  // nil: one blob insert; else one transaction per entry growing the database by that many pages, each followed by ONE incremental sync
+	follow  bool   // continue with Snapshot, Compact x2, Close, Restore and the image comparison
+	must    bool   // runs even when the quick tier's time budget is used up
+}
+
+// boundaryHistories: the previously synced size on each side of the lock page
+// (lockPgno-2, lockPgno-1 = exactly 1 GiB, lockPgno, lockPgno+1), each followed
+// by growth of 1, 2 and several pages in one incremental sync; chained growths
+// reuse the 1 GiB first sync.
+func boundaryHistories(ps uint32, followFirst bool) []sparseScenario {
+	h := func(delta int, follow bool, g ...int) sparseScenario {
+		return sparseScenario{ps, delta, fmt.Sprintf("prev=lock%+d growth=%v", delta, g), g, follow, false}
+	}
+	return []sparseScenario{
+		h(-1, followFirst, 2, 5), // exactly 1 GiB, then across the lock page
+		h(-2, false, 1, 1, 1, 2), // lock-2 -> lock-1 -> lock+1 -> lock+2 -> lock+4
+		h(-1, false, 5),
+		h(-2, false, 2, 2),
+		h(0, false, 1, 2),
+		h(-2, false, 5),
+		h(0, false, 5),
+		h(1, false, 5),
+		h(0, false, 2),
+	}
 }
 
 func (e *emitter) sparseDatabases(r *rand.Rand, dir, tier string) error {
 	var scs []sparseScenario
+	budget := 30 * time.Second
 	if tier == "thorough" {
+		budget = 24 * time.Hour
 		for _, ps := range allPageSizes {
-			scs = append(scs, sparseScenario{ps, -3, "lock-beyond-then-inside"})
+			scs = append(scs, sparseScenario{ps, -3, "lock-beyond-then-inside", nil, true, false})
+			scs = append(scs, boundaryHistories(ps, ps == 65536 || ps == 4096)...)
 			if ps == 65536 || ps == 4096 {
-				scs = append(scs, sparseScenario{ps, 0, "lock-last-page"}, sparseScenario{ps, 2, "lock-inside"}, sparseScenario{ps, -1, "lock-next-page"})
+				scs = append(scs, sparseScenario{ps, 0, "lock-last-page", nil, true, false}, sparseScenario{ps, 2, "lock-inside", nil, true, false}, sparseScenario{ps, -1, "lock-next-page", nil, true, false})
 			}
 		}
 	} else {
-		// the second scenario runs only when the first one was quick (see below)
-		scs = []sparseScenario{{65536, -3, "lock-beyond-then-inside"}, {65536, 0, "lock-last-page"}}
+		// in priority order; scenarios that do not fit the time budget of the quick tier are
+		// skipped and listed as such in the evidence
+		// first: previous synced size exactly 1 GiB (lock page is the next page), growth across
+		// the lock page in one incremental sync, then snapshot / compaction / restore
+		bh := boundaryHistories(65536, false)
+		scs = append(scs, bh[:6]...)
+		scs = append(scs, sparseScenario{65536, -1, "lock-next-page-then-inside", nil, true, true})
+		scs = append(scs, bh[6:]...)
+		scs = append(scs, sparseScenario{65536, -3, "lock-beyond-then-inside", nil, true, false}, sparseScenario{65536, 0, "lock-last-page", nil, true, false})
+		scs = append(scs, boundaryHistories(4096, false)[:2]...)
 		switch os.Getenv("VERIF_LTX_SCENARIO") {
 		case "4096":
-			scs = []sparseScenario{{4096, -3, "lock-beyond-then-inside"}}
+			scs = []sparseScenario{{4096, -3, "lock-beyond-then-inside", nil, true, true}}
 		case "last":
-			scs = []sparseScenario{{65536, 0, "lock-last-page"}}
+			scs = []sparseScenario{{65536, 0, "lock-last-page", nil, true, true}}
 		case "next":
-			scs = []sparseScenario{{65536, -1, "lock-next-page"}}
+			scs = []sparseScenario{{65536, -1, "lock-next-page", nil, true, true}}
+		case "boundary":
+			scs = boundaryHistories(65536, true)
 		}
 	}
 	_ = os.RemoveAll(dir)
 	defer os.RemoveAll(dir)
 	tStart := time.Now()
 	for i, sc := range scs {
-		if tier != "thorough" && i > 0 && time.Since(tStart) > 20*time.Second {
-			e.extra["skipped (time budget of the quick tier): "+sc.name]++
+		if i > 0 && !sc.must && time.Since(tStart) > budget {
+			e.extra[fmt.Sprintf("skipped (time budget of the quick tier): ps=%d %s", sc.ps, sc.name)]++
 			continue
 		}
 		t0 := time.Now()
@@ -288,8 +325,12 @@ func (e *emitter) sparseDatabases(r *rand.Rand, dir, tier string) error {
 		cls := fmt.Sprintf("sparse ps=%d %s", sc.ps, sc.name)
 		e.extra[cls+" ms"] = int(time.Since(t0).Milliseconds())
 		if err != nil {
-			e.violation("C17/sparse-database-operation-failed:"+sc.name,
-				fmt.Sprintf("page size %d, initial size lockPgno%+d pages: %v", sc.ps, sc.delta, err),
+			sig := sc.name
+			if sc.growths != nil {
+				sig = "boundary-history"
+			}
+			e.violation("C17/sparse-database-operation-failed:"+sig,
+				fmt.Sprintf("page size %d, first synced size lockPgno%+d pages, scenario %s: %v", sc.ps, sc.delta, sc.name, err),
 				map[string]any{"scenario": cls, "how": "./check C17 re-runs the scenario"})
 		}
 	}
@@ -409,12 +450,39 @@ func (e *emitter) sparseOne(r *rand.Rand, dir string, sc sparseScenario, decodeA
 		return fmt.Errorf("first sync (snapshot path, commit=lockPgno%+d): %w", sc.delta, err)
 	}
 	lap("open+first sync")
-	// growth across the lock page within one sync: overflow pages n0+1 ...
-	if err := exec("INSERT INTO t(v) VALUES (randomblob(?))", int(ps)*5+int(ps)/2); err != nil {
-		return err
+	if sc.growths == nil {
+		// growth across the lock page within one sync: overflow pages n0+1 ...
+		if err := exec("INSERT INTO t(v) VALUES (randomblob(?))", int(ps)*5+int(ps)/2); err != nil {
+			return err
+		}
+		if err := db.Sync(ctx); err != nil {
+			return fmt.Errorf("second sync (incremental path, growth across the lock page): %w", err)
+		}
 	}
-	if err := db.Sync(ctx); err != nil {
-		return fmt.Errorf("second sync (incremental path, growth across the lock page): %w", err)
+	pageCount := func() int64 {
+		var n int64
+		_ = app.QueryRow("PRAGMA page_count").Scan(&n)
+		return n
+	}
+	for gi, g := range sc.growths {
+		// one transaction that allocates g pages (one root page per table), then ONE incremental sync
+		before := pageCount()
+		if err := exec("BEGIN"); err != nil {
+			return err
+		}
+		for j := 0; j < g; j++ {
+			if err := exec(fmt.Sprintf("CREATE TABLE g%d_%d(a)", gi, j)); err != nil {
+				return err
+			}
+		}
+		if err := exec("COMMIT"); err != nil {
+			return err
+		}
+		after := pageCount()
+		if err := db.Sync(ctx); err != nil {
+			return fmt.Errorf("incremental sync after growth from lockPgno%+d to lockPgno%+d pages in one transaction: %w",
+				before-int64(lock), after-int64(lock), err)
+		}
 	}
 	lap("second sync")
 	wal1, _ := os.ReadFile(path + "-wal")
@@ -422,6 +490,8 @@ func (e *emitter) sparseOne(r *rand.Rand, dir string, sc sparseScenario, decodeA
 		return fmt.Errorf("replica sync: %w", err)
 	}
 	lap("replica sync")
+	wal2 := wal1
+	if sc.follow {
 	if _, err := db.Snapshot(ctx); err != nil {
 		return fmt.Errorf("snapshot: %w", err)
 	}
@@ -440,12 +510,13 @@ func (e *emitter) sparseOne(r *rand.Rand, dir string, sc sparseScenario, decodeA
 	if err := db.Sync(ctx); err != nil {
 		return fmt.Errorf("third sync: %w", err)
 	}
-	wal2, _ := os.ReadFile(path + "-wal")
+	wal2, _ = os.ReadFile(path + "-wal")
 	if err := db.Replica.Sync(ctx); err != nil {
 		return fmt.Errorf("replica sync: %w", err)
 	}
 	if _, err := db.Compact(ctx, 1); err != nil {
 		return fmt.Errorf("second compaction of level 1: %w", err)
+	}
 	}
 
 	lap("third sync+compact2")
@@ -470,8 +541,11 @@ func (e *emitter) sparseOne(r *rand.Rand, dir string, sc sparseScenario, decodeA
 			commitAt[o.hdr.MaxTXID] = o.hdr.Commit
 		}
 	}
-	if len(obs) < 6 {
+	if sc.follow && len(obs) < 6 {
 		return fmt.Errorf("expected at least 6 LTX files in the replica (3 level-0, 2 level-1, 1 snapshot), found %d", len(obs))
+	}
+	if want := 1 + len(sc.growths); sc.growths != nil && len(commitAt) < want {
+		return fmt.Errorf("expected at least %d level-0 files (snapshot + one per growth transaction), found %d", want, len(commitAt))
 	}
 	wal := wal2
 	if len(wal1) > len(wal2) {
@@ -492,6 +566,9 @@ func (e *emitter) sparseOne(r *rand.Rand, dir string, sc sparseScenario, decodeA
 				ks = append(ks, U(uint64(k)))
 			}
 			e.cw.Add("ltx_wal_pgnos", L(U(uint64(ps)), U(uint64(prev)), U(uint64(o.hdr.Commit)), ks), runsSx(runs), fcls+"/incremental", true)
+			if d := int64(prev) - int64(lock); d >= -3 && d <= 3 && o.hdr.Commit > prev {
+				e.extra[fmt.Sprintf("real incremental syncs: previous size lockPgno%+d, grown by %d pages", d, int64(o.hdr.Commit)-int64(prev))]++
+			}
 		}
 		switch {
 		case o.hdr.Commit > lock:
@@ -506,6 +583,10 @@ func (e *emitter) sparseOne(r *rand.Rand, dir string, sc sparseScenario, decodeA
 	}
 
 	lap("observe files")
+	if !sc.follow {
+		e.extra["sparse databases synced across the boundary (no restore)"]++
+		return nil
+	}
 	// 4. close (final sync + upload), restore from the replica alone, then compare
 	//    with the checkpointed source
 	closed = true
@@ -635,4 +716,207 @@ func pageForensics(src, dst string, c *file.ReplicaClient, ps, pgno uint32) stri
 		}
 	}
 	return out
+}
+
+// ---- the REAL writeLTXFromWAL / writeLTXFromDB on a grid around the lock page -----------
+//
+// (hook /repo/export_verif_ltx.go) A sparse database file of lockPgno+16 pages
+// (a hole) and a one-frame WAL file; the page map is supplied directly, so every
+// (previous commit, commit, page map) around the boundary is reachable without
+// SQLite having to produce it.
+
+func pgnosOf(b []byte) ([]uint32, error) {
+	dec := ltx.NewDecoder(bytes.NewReader(b))
+	if err := dec.DecodeHeader(); err != nil {
+		return nil, err
+	}
+	data := make([]byte, dec.Header().PageSize)
+	var out []uint32
+	for {
+		var ph ltx.PageHeader
+		if err := dec.DecodePage(&ph, data); err == io.EOF {
+			break
+		} else if err != nil {
+			return nil, err
+		}
+		out = append(out, ph.Pgno)
+	}
+	return out, dec.Close()
+}
+
+type gridFiles struct {
+	ps      uint32
+	db, wal *os.File
+}
+
+func newGridFiles(dir string, ps uint32) (*gridFiles, error) {
+	if err := os.MkdirAll(dir, 0o755); err != nil {
+		return nil, err
+	}
+	dbf, err := os.Create(filepath.Join(dir, fmt.Sprintf("grid%d.db", ps)))
+	if err != nil {
+		return nil, err
+	}
+	if err := dbf.Truncate(int64(ltx.LockPgno(ps)+16) * int64(ps)); err != nil {
+		return nil, err
+	}
+	walf, err := os.Create(filepath.Join(dir, fmt.Sprintf("grid%d.wal", ps)))
+	if err != nil {
+		return nil, err
+	}
+	if _, err := walf.Write(make([]byte, 32+24+int(ps))); err != nil {
+		return nil, err
+	}
+	return &gridFiles{ps, dbf, walf}, nil
+}
+
+func (g *gridFiles) close() {
+	n1, n2 := g.db.Name(), g.wal.Name()
+	g.db.Close()
+	g.wal.Close()
+	os.Remove(n1)
+	os.Remove(n2)
+}
+
+// walGridCase: writeLTXFromWAL(prev, commit, page map with the given keys) into a real encoder.
+func (e *emitter) walGridCase(g *gridFiles, prev, commit uint32, keys []uint32, cls string) {
+	obs := func() (o Sx) {
+		defer func() {
+			if p := recover(); p != nil {
+				o = L(I(9), L())
+			}
+		}()
+		var buf bytes.Buffer
+		enc, err := ltx.NewEncoder(&buf)
+		if err != nil {
+			return L(I(50), L())
+		}
+		if err := enc.EncodeHeader(ltx.Header{Version: ltx.Version, Flags: ltx.HeaderFlagNoChecksum, PageSize: g.ps, Commit: commit, MinTXID: 2, MaxTXID: 2}); err != nil {
+			return L(I(2), L())
+		}
+		pm := map[uint32]int64{}
+		for _, k := range keys {
+			pm[k] = 32
+		}
+		if err := litestream.WriteLTXFromWALVerif(context.Background(), g.db, g.wal, int(g.ps), enc, prev, commit, pm); err != nil {
+			return L(I(classify(err)), L())
+		}
+		if err := enc.Close(); err != nil {
+			return L(I(classify(err)), L())
+		}
+		pgnos, err := pgnosOf(buf.Bytes())
+		if err != nil {
+			return L(I(51), L())
+		}
+		return L(I(0), runsSx(toRuns(pgnos)))
+	}()
+	ks := make(SxList, 0, len(keys))
+	for _, k := range keys {
+		ks = append(ks, U(uint64(k)))
+	}
+	e.cw.Add("ltx_wal_encode", L(U(uint64(g.ps)), U(uint64(prev)), U(uint64(commit)), ks), obs, cls, true)
+}
+
+func (e *emitter) walGrid(r *rand.Rand, dir string) error {
+	for _, ps := range allPageSizes {
+		g, err := newGridFiles(dir, ps)
+		if err != nil {
+			return err
+		}
+		lock := ltx.LockPgno(ps)
+		for dp := -3; dp <= 2; dp++ {
+			prev := uint32(int64(lock) + int64(dp))
+			for _, grow := range []int{-2, 0, 1, 2, 3, 6} {
+				commit := uint32(int64(prev) + int64(grow))
+				var growth []uint32 // the non-lock pages of (prev, commit]
+				for p := prev + 1; p <= commit; p++ {
+					if p != lock {
+						growth = append(growth, p)
+					}
+				}
+				cls := fmt.Sprintf("wal-grid prev=lock%+d", dp)
+				// (1) nothing of the growth range in the WAL: every growth page comes from the database file
+				e.walGridCase(g, prev, commit, []uint32{1}, cls+"/fill-all")
+				// (2) what SQLite does: every newly allocated page has a frame
+				e.walGridCase(g, prev, commit, append([]uint32{1}, growth...), cls+"/fill-none")
+				// (3) a random part of the growth range and some older pages
+				keys := map[uint32]bool{}
+				for _, p := range growth {
+					if r.Intn(2) == 0 {
+						keys[p] = true
+					}
+				}
+				for _, p := range []uint32{1, 2, prev - 1, prev, lock - 1, lock + 1} {
+					if p >= 1 && p <= commit && p != lock && r.Intn(2) == 0 {
+						keys[p] = true
+					}
+				}
+				var ks []uint32
+				for p := range keys {
+					ks = append(ks, p)
+				}
+				sort.Slice(ks, func(i, j int) bool { return ks[i] < ks[j] })
+				e.walGridCase(g, prev, commit, ks, cls+"/fill-some")
+				// (4) outside the input class (SQLite never writes the lock page): a page map holding it
+				if grow == 2 && lock <= commit {
+					e.walGridCase(g, prev, commit, []uint32{1, lock}, cls+"/lock-page-in-wal")
+				}
+			}
+		}
+		g.close()
+	}
+	return nil
+}
+
+// dbGrid: writeLTXFromDB for commits around the lock page (1 GiB of hole per call).
+func (e *emitter) dbGrid(dir, tier string) error {
+	sizes := []uint32{65536}
+	if tier == "thorough" {
+		sizes = allPageSizes
+	}
+	for _, ps := range sizes {
+		g, err := newGridFiles(dir, ps)
+		if err != nil {
+			return err
+		}
+		lock := ltx.LockPgno(ps)
+		for _, c := range []struct {
+			snap   bool
+			commit uint32
+		}{{true, lock - 1}, {true, lock}, {false, lock + 1}, {true, lock + 3}} {
+			if tier != "thorough" && c.commit == lock-1 {
+				continue
+			}
+			obs := func() (o Sx) {
+				defer func() {
+					if p := recover(); p != nil {
+						o = L(I(9), L())
+					}
+				}()
+				var buf bytes.Buffer
+				enc, _ := ltx.NewEncoder(&buf)
+				min := ltx.TXID(2)
+				if c.snap {
+					min = 1
+				}
+				if err := enc.EncodeHeader(ltx.Header{Version: ltx.Version, Flags: ltx.HeaderFlagNoChecksum, PageSize: ps, Commit: c.commit, MinTXID: min, MaxTXID: 2}); err != nil {
+					return L(I(2), L())
+				}
+				if err := litestream.WriteLTXFromDBVerif(context.Background(), g.db, g.wal, int(ps), enc, c.commit, map[uint32]int64{2: 32, lock + 1: 32}); err != nil {
+					return L(I(classify(err)), L())
+				}
+				if err := enc.Close(); err != nil {
+					return L(I(classify(err)), L())
+				}
+				pgnos, err := pageIndexPgnos(buf.Bytes())
+				if err != nil {
+					return L(I(51), L())
+				}
+				return L(I(0), runsSx(toRuns(pgnos)))
+			}()
+			e.cw.Add("ltx_db_encode", L(B(c.snap), U(uint64(ps)), U(uint64(c.commit))), obs, "db-grid", true)
+		}
+		g.close()
+	}
+	return nil
 }
